@@ -189,6 +189,9 @@ def composite_codec_encode_into_pdu(codec: CompositeCodec, physical_value: Optio
     # encode the length- and table keys. This cannot be done above
     # because we allow these to be defined implicitly (i.e. they
     # are defined by their respective users)
+    # filling in the values of the keys must not affect the position of
+    # the object which follows the composite codec object
+    orig_cursor = encode_state.cursor_byte_position
     for param in codec.parameters:
         if not isinstance(param, (LengthKeyParameter, TableKeyParameter)):
             # the current parameter is neither a length- nor a table key
@@ -196,6 +199,15 @@ def composite_codec_encode_into_pdu(codec: CompositeCodec, physical_value: Optio
 
         # Encode the value of the key parameter into the message
         param.encode_value_into_pdu(encode_state=encode_state)
+
+        if isinstance(param, LengthKeyParameter):
+            # the value of the length key is only valid for the
+            # current instance of the composite codec object. (e.g.,
+            # the next item of a field determines its own length.)
+            encode_state.length_keys.pop(param.short_name, None)
+
+    encode_state.cursor_byte_position = orig_cursor
+    encode_state.cursor_bit_position = 0
 
     encode_state.origin_byte_position = orig_origin
 
